@@ -1,0 +1,35 @@
+//go:build !verif
+
+package nitro
+
+import "unsafe"
+
+// Yield points used by the verification harness (build tag verif).
+// Without the tag verifYield is an empty function.
+const (
+	vpOpenLoad = iota + 101
+	vpOpenCas
+	vpCloseDec
+	vpCloseRetire
+	vpCloseGC
+	vpGCTryLock
+	vpGCUnlock
+	vpCollectRead
+	vpCollectSend
+	vpDelNodePhys
+	vpDelNodeCas
+	vpDelNodeFlush
+	vpWorkerRecv
+	vpWorkerNode
+	vpWorkerFlush
+	vpWorkerDone
+	vpFreeRecv
+	vpFreeDone
+	vpPutInsert
+	vpStoreFs
+	vpFileWrite
+	vpFileFlush
+	vpFileClose
+)
+
+func verifYield(point int, obj unsafe.Pointer) {}
